@@ -137,6 +137,9 @@ def bdd_histories(pid, tier, seed):
             g.wide_preamble(extra)
         ops = b["ops"] if tiny else b["ops"] * 2
         lines = g.run(ops)
+        if family == "wide":
+            g.huge_vars_epilogue()
+            lines = g.lines
         yield ("gen-%s-%d" % (pid, i), lines, {"seed": hseed, "nvars": nvars, "cfg": cfg, "family": family, "stats": dict(g.stats), "classes": dict(g.classes)})
 
 
